@@ -309,6 +309,12 @@ func init() {
 		sec := uint64(63_850_000_000) + uint64(it.clock)
 		return &StructV{f: []Value{ts.BV(0, 64), ts.BV(sec, 64), nilPtr()}}
 	}
+	intercepts["time.After"] = func(it *Interp, fn *ssa.Function, args []Value) Value {
+		// the timer has always fired by the time the channel is read (waiting is not modelled)
+		it.cellID++
+		ts := it.ts
+		return &ChanV{ch: &ChanObj{cap: 1, id: it.cellID, buf: []Value{&StructV{f: []Value{ts.BV(0, 64), ts.BV(0, 64), nilPtr()}}}}}
+	}
 	intercepts["time.Since"] = func(it *Interp, fn *ssa.Function, args []Value) Value {
 		return it.ts.BV(1_000_000, 64)
 	}
@@ -496,6 +502,12 @@ func prefixIntercept(name string) nativeFn {
 			return noop
 		case "LogDebugEnabled", "LogTraceEnabled", "LogInfoEnabled", "IsDevMode", "IsAuditEnabled":
 			return func(it *Interp, fn *ssa.Function, args []Value) Value { return it.ts.Bool(false) }
+		case "BucketNameCtx", "CollectionLogCtx", "ImplicitDefaultCollectionLogCtx", "CorrelationIDLogCtx", "DatabaseLogCtx",
+			"AuditLogCtx", "EffectiveUserIDLogCtx", "KeyspaceLogCtx", "DataStoreLogCtx", "UserLogCtx", "RequestLogCtx", "LogContextWith", "bucketCtx":
+			// logging contexts carry no behaviour the properties depend on: the parent context is returned unchanged
+			return func(it *Interp, fn *ssa.Function, args []Value) Value { return args[0] }
+		case "RedactSprintf":
+			return func(it *Interp, fn *ssa.Function, args []Value) Value { return it.opaqueStr("redacted") }
 		case "UD", "MD", "SD":
 			return func(it *Interp, fn *ssa.Function, args []Value) Value {
 				return it.zeroResults(fn)
@@ -566,6 +578,13 @@ func (it *Interp) indexSub(s, sub []*Term) Value {
 		for j := range sub {
 			x := s[i+j]
 			if x.op == OpNum {
+				if x.a == 0 && len(sub) >= 3 && allConst(sub) {
+					// opaque formatted fragment (redacted name, %v of a composite value): assumed not to take part in a
+					// match of a constant needle (error classifiers looking for fixed phrases)
+					it.stubsUsed["assumption: opaque formatted fragments never match a constant search phrase"] = true
+					m = ts.Bool(false)
+					break
+				}
 				if !sub[j].IsConst() || x.a == 0 || isDigitByte(byte(sub[j].cval), x.a) {
 					panic(unsupported("Index across Num segment"))
 				}
@@ -579,6 +598,15 @@ func (it *Interp) indexSub(s, sub []*Term) Value {
 		}
 	}
 	return ts.BV(^uint64(0), 64)
+}
+
+func allConst(b []*Term) bool {
+	for _, x := range b {
+		if !x.IsConst() {
+			return false
+		}
+	}
+	return true
 }
 
 func verbOperandIndex(format string, verb byte) int {
